@@ -495,6 +495,33 @@ func (c *Ctx) TPL(rule string) []report.Obligation {
 		fmt.Sprintf("no value returned by the variable mapping (or by a substitution function) reaches the template argument of Substitute*/ReplaceAllStringFunc in %d functions of package template", len(pkgFns)),
 		"a substituted value is fed back into substitution at "+strings.Join(viol, ", ")+": a `$` inside a variable's value would be expanded"))
 
+	// ---- TPL-5: no error produced inside the substitution machinery is dropped on some path
+	nerr := 0
+	for _, f := range pkgFns {
+		for _, b := range f.Blocks {
+			for _, in := range b.Instrs {
+				call, ok := in.(*ssa.Call)
+				if !ok {
+					continue
+				}
+				sig := call.Call.Signature()
+				if sig.Results().Len() == 0 || !isErrorType(sig.Results().At(sig.Results().Len()-1).Type()) {
+					continue
+				}
+				nerr++
+				key := c.P.FuncID(f) + " :: error of " + c.P.KeyTerm(call, 1)
+				if at := c.errUntestedExit(call); at != "" {
+					out = append(out, bad(rule+"-5", key, c.P.InstrPos(in), "a path from this call reaches the return at "+at+" without the error having been tested, passed on or returned: a failing nested substitution (required variable, malformed `${`) is silently turned into a value"))
+				} else {
+					out = append(out, ok2(rule+"-5", key, c.P.InstrPos(in), "on every path to a return the error is tested against nil, handed to another call, or returned"))
+				}
+			}
+		}
+	}
+	if nerr == 0 {
+		out = append(out, bad(rule+"-5", "template :: error-returning calls", "", "no error-returning call found in package template"))
+	}
+
 	// ---- TPL-4: empty name in a braced / named match is an InvalidTemplateError
 	if f := c.P.Func("template.DefaultReplacementAppliedFunc"); f != nil {
 		good := false
